@@ -1007,6 +1007,11 @@ pub fn corpus() -> Vec<(&'static str, &'static str, Vec<Op>)> {
             Op::Reorg(5), Op::Clear, Op::Mine { n: 1, ts: TS0 + 3 }]),
         ("store_refused_reorg_then_commit_reopen", "c05", vec![t_init(), Op::Mine { n: 20, ts: TS0 + 1 }, Op::Reorg(12), Op::Mine { n: 2, ts: TS0 + 2 },
             Op::Reorg(5), Op::Reorg(3), Op::Mine { n: 1, ts: TS0 + 3 }, Op::Commit, Op::Reopen]),
+        // a block opened by nothing but a RE-inscription of a waiting transaction is still an open block: commit,
+        // mine and reorg are refused until it is finalised
+        ("reparked_tx_opens_a_block", "c05", vec![t_init(), t_signed(3, 1, vec![7], TS0 + 1, "rp1i0", 2000), t_fin(TS0 + 1),
+            t_signed(3, 1, vec![7], TS0 + 2, "rp1bi0", 2000), Op::Commit, Op::Mine { n: 1, ts: TS0 + 2 }, Op::Reorg(0), t_fin(TS0 + 2),
+            t_signed(3, 0, vec![9], TS0 + 3, "rp0i0", 2000), t_fin(TS0 + 3)]),
         // clearCaches / restart = exactly the last commit, also after a reorg that only the store refused
         ("refused_reorg_then_clear", "c03", vec![t_init(), Op::Mine { n: 3, ts: TS0 + 1 }, Op::Commit, Op::Mine { n: 11, ts: TS0 + 2 }, Op::Clear, Op::Mine { n: 1, ts: TS0 + 3 },
             Op::Reorg(2), Op::Clear]),
